@@ -230,6 +230,8 @@ Fixpoint write (b : buf) (off : nat) (bytes : buf) {struct off} : buf :=
   | O => overwrite b bytes
   | S o => match b with x :: r => x :: write r o bytes | [] => [] end
   end.
+(* clear(b[:n]) *)
+Definition zero_prefix (n : nat) (b : buf) : buf := repeat 0 (Nat.min n (length b)) ++ skipn n b.
 Definition u16_bytes (v : N) : buf := [ (v / 256) mod 256; v mod 256 ].
 Definition put16 (b : buf) (off : nat) (v : N) : buf := write b off (u16_bytes v).
 Definition count16 {A} (l : list A) : N := wrap16 (N.of_nat (length l)).
@@ -422,20 +424,27 @@ Section Packers.
     (* state.compression is the same map object the pack filled; untouched when compress is off *)
     mk_pstate (pw_out w) (if c then pw_cm w else ps_cmap st) (pw_shim_rr w) (pw_shim_hdr w) (pw_opt w).
 
-  (* wire.TryPack for a non-nil msg; [view] as in pooled_records *)
-  Definition try_pack_gen (view : slot -> wtarget) (st : pstate) (m : msg) : tp_result :=
+  (* wire.TryPack for a non-nil msg; [view] as in pooled_records.  [scrub] = true is the
+     code as it is (fix a876f32): after Get, clear(state.buf[:min(uncompressed+1, packBufferSize)]);
+     [scrub] = false is the tree before that fix, kept only for the regression examples. *)
+  Definition scrub_len (m : msg) : nat := Nat.min (msg_len m + 1) (N.to_nat pack_buffer_size).
+  Definition try_pack_gen (scrub : bool) (view : slot -> wtarget) (st : pstate) (m : msg) : tp_result :=
     match preflight (h_rcode (m_hdr m)) (shapes (m_answer m)) (shapes (m_ns m)) (shapes (m_extra m))
                     (N.of_nat (msg_len m)) with
     | Proceed opt =>
+        let st0 := mk_pstate (if scrub then zero_prefix (scrub_len m) (ps_buf st) else ps_buf st)
+                             (ps_cmap st) (ps_shim_rr st) (ps_shim_hdr st) (ps_opt st) in
         let c := m_compress m && msg_compressible m in
         let cm := if c then Some (match ps_cmap st with None => cm_empty | Some x => x end) else None in
-        let '(ok, w, m1) := pack_into_gen view st m opt cm c in
-        let st1 := release (state_after st w c) in
+        let '(ok, w, m1) := pack_into_gen view st0 m opt cm c in
+        let st1 := release (state_after st0 w c) in
         if ok then mk_tp true [slice3 (pw_out w) (pw_off w) (pw_off w)] st1 m1
         else mk_tp false [] st1 m1
     | _ => mk_tp false [] st m
     end.
-  Definition try_pack := try_pack_gen rrview_header.
+  Definition try_pack := try_pack_gen true rrview_header.
+  (* the packer before the fix *)
+  Definition try_pack_unscrubbed := try_pack_gen false rrview_header.
 
   Definition tp_bytes (r : tp_result) : option buf :=
     match tp_handled r, tp_consumed r with
